@@ -40,7 +40,20 @@ fn check(prop: &str, tier: &str) -> i32 {
             common::merge_reports(&mut r, vec![("E1-seq", r1), ("E2-sched", r2)]);
             r.finish()
         }
-        "C01" | "C05" | "C08" | "C09" | "C20" => {
+        "C05" => {
+            let mut r = Report::new(prop, tier, "model_checking");
+            r.assumptions = vec![
+                "E1: fjall/lsm-tree, cacache, tokio and scru128 are explored through, not modelled; scratch stores on tmpfs".into(),
+                "E2: scheduling points are the verif hooks (append.*, commit.pre/post) of import, remove and append".into(),
+            ];
+            let mut r1 = Report::new(prop, tier, "model_checking");
+            seq::run(prop, tier, &mut r1);
+            let mut r2 = Report::new(prop, tier, "model_checking");
+            e2::run(prop, tier, &mut r2);
+            common::merge_reports(&mut r, vec![("E1-seq", r1), ("E2-sched", r2)]);
+            r.finish()
+        }
+        "C01" | "C08" | "C09" | "C20" => {
             let mut r = Report::new(prop, tier, "model_checking");
             r.assumptions = vec![
                 "fjall/lsm-tree, cacache, tokio and scru128 are explored through, not modelled".into(),
